@@ -20,7 +20,20 @@
 
 package internal
 
+import "fmt"
+
 type fieldIdentifier struct {
 	ID    int
 	Unset bool
+}
+
+// checkedInt converts an integer of the source to an int. On platforms where
+// an int is 32 bits wide, a number that does not fit is reported as an error
+// instead of being truncated.
+func checkedInt(yylex yyLexer, v int64) int {
+	i := int(v)
+	if int64(i) != v {
+		yylex.Error(fmt.Sprintf("the integer %d is out of range", v))
+	}
+	return i
 }
